@@ -35,10 +35,18 @@ func C19(c *Ctx) {
 	c19EveryLineMatched(c, "C19-R9", run)
 	c.R.Rule("C19-R10", "E6", "the repository's session files use field names the YAML decoder knows", 1)
 	c19SessionFiles(c, "C19-R10")
-	// the function that matches output lines
+	// the function that matches output lines: a literal of Run, or a helper / method of the package that Run's
+	// literals reach.  What the original spells in one function may be spread over that function, its callers
+	// (the read loop, the countdown) and its helpers (the guard): each construct is looked for in that family and
+	// positions are related through the calls that connect them.
+	scope := pkgClosure(run)
+	inScope := map[*ssa.Function]bool{}
+	for _, f := range scope {
+		inScope[f] = true
+	}
 	var F *ssa.Function
 	var matchCall *ssa.Call
-	for _, f := range ssau.WithAnon(run) {
+	for _, f := range scope {
 		ssau.Instrs(f, func(in ssa.Instruction) {
 			if cl, ok := in.(*ssa.Call); ok {
 				if sc := cl.Common().StaticCallee(); sc != nil && sc.Name() == "Match" && prog.PkgOf(sc) == "match" {
@@ -52,11 +60,22 @@ func C19(c *Ctx) {
 		return
 	}
 	c.R.Fn(fname(run), fname(F))
+	// anc: F and the functions of the scope that reach it (the read loop may be a caller of the matching function)
+	var anc []*ssa.Function
+	for _, g := range scope {
+		for _, x := range pkgClosure(g) {
+			if x == F {
+				anc = append(anc, g)
+				break
+			}
+		}
+	}
 	c.R.Rule("C19-R7", "E3", "patterns reach the matcher JSON-decoded", 1)
 	c19Canonical(c, F, matchCall)
 	isOutputElem := func(base ssa.Value) bool {
-		// &iop.OutputSet[i]
-		for _, d := range phiDefs(base, nil, map[ssa.Value]bool{}) {
+		// &iop.OutputSet[i] (handed down to a helper as it is)
+		ds := deepDefs(base, scope)
+		for _, d := range ds {
 			ia, ok := d.(*ssa.IndexAddr)
 			if !ok {
 				return false
@@ -65,16 +84,41 @@ func C19(c *Ctx) {
 				return false
 			}
 		}
-		return true
+		return len(ds) > 0
+	}
+	// sameElem: two values denote the same Output element (the same &OutputSet[i], seen from a helper or its caller)
+	sameElem := func(a, b ssa.Value) bool {
+		if a == b || sameIndexAddr(a, b) {
+			return true
+		}
+		da, db := deepDefs(a, scope), deepDefs(b, scope)
+		for _, x := range da {
+			hit := false
+			for _, y := range db {
+				if x == y || sameIndexAddr(x, y) {
+					hit = true
+				}
+			}
+			if !hit {
+				return false
+			}
+		}
+		return len(da) > 0 && len(db) > 0
 	}
 	// ---- R1
-	marks := storesToPkg(F, "tools/expect", "Output", "Bindingss")
+	var marks []*ssa.Store
+	for _, f := range scope {
+		marks = append(marks, storesToPkg(f, "tools/expect", "Output", "Bindingss")...)
+	}
 	okMark := len(marks) == 1
 	why := fmt.Sprintf("%d stores to Output.Bindingss", len(marks))
 	var elem ssa.Value
+	M := F // the function that holds the mark
 	if okMark {
 		_, _, base, _ := ssau.FieldOf(marks[0].Addr)
 		elem = base
+		M = marks[0].Parent()
+		c.R.Fn(fname(M))
 		if !isOutputElem(base) {
 			okMark, why = false, "the mark is written into a copy of the Output ("+base.String()+"), so it is lost when the line has been processed"
 		}
@@ -82,48 +126,56 @@ func C19(c *Ctx) {
 	c.R.Check(okMark, "C19-R1", "Run: satisfied mark written into the session's Output element", c.P.Pos(F.Pos()), "through &OutputSet[i]", why)
 	// the skip test reads the same field of the same element before matching
 	okSkip := false
-	for _, b := range F.Blocks {
-		iff, ok := b.Instrs[len(b.Instrs)-1].(*ssa.If)
-		if !ok {
+	for _, g := range anc {
+		site := siteInFn(g, matchCall) // the matcher, or the call that leads to it
+		if site == nil {
 			continue
 		}
-		bo, isB := iff.Cond.(*ssa.BinOp)
-		if !isB || !ssau.IsNilConst(bo.Y) {
-			continue
-		}
-		ld, isLd := bo.X.(*ssa.UnOp)
-		if !isLd || !ssau.IsField(ld.X, prog.Abs("tools/expect"), "Output", "Bindingss") {
-			continue
-		}
-		_, _, base, _ := ssau.FieldOf(ld.X)
-		if !isOutputElem(base) || (elem != nil && base != elem && !sameIndexAddr(base, elem)) {
-			continue
-		}
-		// the matcher is reachable only on the "not yet satisfied" edge
-		notYet := b.Succs[1]
-		if bo.Op == token.EQL {
-			notYet = b.Succs[0]
-		}
-		other := b.Succs[0]
-		if bo.Op == token.EQL {
-			other = b.Succs[1]
-		}
-		if flow.Reachable(notYet, matchCall.Block(), nil) && b.Dominates(matchCall.Block()) && !reachWithoutLoopHead(other, matchCall.Block(), F) {
-			okSkip = true
+		for _, b := range g.Blocks {
+			iff, ok := b.Instrs[len(b.Instrs)-1].(*ssa.If)
+			if !ok {
+				continue
+			}
+			bo, isB := iff.Cond.(*ssa.BinOp)
+			if !isB || !ssau.IsNilConst(bo.Y) {
+				continue
+			}
+			ld, isLd := bo.X.(*ssa.UnOp)
+			if !isLd || !ssau.IsField(ld.X, prog.Abs("tools/expect"), "Output", "Bindingss") {
+				continue
+			}
+			_, _, base, _ := ssau.FieldOf(ld.X)
+			if !isOutputElem(base) || (elem != nil && !sameElem(base, elem)) {
+				continue
+			}
+			// the matcher is reachable only on the "not yet satisfied" edge
+			notYet := b.Succs[1]
+			if bo.Op == token.EQL {
+				notYet = b.Succs[0]
+			}
+			other := b.Succs[0]
+			if bo.Op == token.EQL {
+				other = b.Succs[1]
+			}
+			if flow.Reachable(notYet, site.Block(), nil) && b.Dominates(site.Block()) && !reachWithoutLoopHead(other, site.Block(), g) {
+				okSkip = true
+			}
 		}
 	}
 	c.R.Check(okSkip, "C19-R1", "Run: an already satisfied output is not tried again", c.pos(matchCall), "the matcher is reached only when the element's own mark is still nil", "the test that skips an already satisfied output does not read the satisfied mark of that output element: a repeated message can be counted again (or an unrelated output with equal text can be skipped)")
 	// ---- R2
 	var guardCall *ssa.Call
-	ssau.Instrs(F, func(in ssa.Instruction) {
-		if cl, ok := in.(*ssa.Call); ok && cl.Common().IsInvoke() && cl.Common().Method.Name() == "Exec" && ssau.TypeIs(cl.Common().Value.Type(), prog.Abs("core"), "Action") {
-			guardCall = cl
-		}
-	})
+	for _, f := range scope {
+		ssau.Instrs(f, func(in ssa.Instruction) {
+			if cl, ok := in.(*ssa.Call); ok && cl.Common().IsInvoke() && cl.Common().Method.Name() == "Exec" && ssau.TypeIs(cl.Common().Value.Type(), prog.Abs("core"), "Action") {
+				guardCall = cl
+			}
+		})
+	}
 	// a guard given as source is compiled into the session's Output element (the one whose Guard is tested and run)
 	{
 		var gstores []*ssa.Store
-		for _, f := range ssau.WithAnon(run) {
+		for _, f := range scope {
 			gstores = append(gstores, storesToPkg(f, "tools/expect", "Output", "Guard")...)
 		}
 		okGS := len(gstores) > 0
@@ -132,10 +184,6 @@ func C19(c *Ctx) {
 			_, _, base, _ := ssau.FieldOf(st.Addr)
 			if !isOutputElem(base) {
 				okGS, whyGS = false, "the compiled guard is stored into a copy of the Output ("+c.pos(st)+"); the element that is tested later still has no guard, so a bare pattern match counts as accepted"
-			}
-			if st.Parent() != F && okGS {
-				// compiled elsewhere: must still be the element
-				continue
 			}
 		}
 		if guardCall != nil {
@@ -150,21 +198,90 @@ func C19(c *Ctx) {
 		}
 		c.R.Check(okGS, "C19-R2", "Run: a GuardSource is compiled into the Output element whose guard is run", c.P.Pos(F.Pos()), fmt.Sprintf("%d store(s) to Output.Guard, all through &OutputSet[i]", len(gstores)), whyGS)
 	}
+	// nonEmptyAt: at block b the slice v is known to have at least one element.  (A nil test is not enough: the
+	// matcher answers "no match" for a property-variable pattern with an empty, non-nil slice.)
+	isLenOf := func(x ssa.Value, v ssa.Value) bool {
+		cl, ok := x.(*ssa.Call)
+		if !ok {
+			return false
+		}
+		bi, isB := cl.Common().Value.(*ssa.Builtin)
+		return isB && bi.Name() == "len" && cl.Common().Args[0] == v
+	}
+	isZero := func(x ssa.Value) bool { n, ok := ssau.ConstInt(x); return ok && n == 0 }
+	nonEmptyAt := func(v ssa.Value, b *ssa.BasicBlock) bool {
+		for _, f := range flow.FactsAt(b) {
+			bo, isB := f.Cond.(*ssa.BinOp)
+			if !isB {
+				continue
+			}
+			switch {
+			case bo.Op == token.LSS && isZero(bo.X) && isLenOf(bo.Y, v) && f.True, // 0 < len(v)
+				bo.Op == token.GTR && isLenOf(bo.X, v) && isZero(bo.Y) && f.True, // len(v) > 0
+				bo.Op == token.NEQ && (isLenOf(bo.X, v) && isZero(bo.Y) || isZero(bo.X) && isLenOf(bo.Y, v)) && f.True,
+				bo.Op == token.EQL && (isLenOf(bo.X, v) && isZero(bo.Y) || isZero(bo.X) && isLenOf(bo.Y, v)) && !f.True,
+				bo.Op == token.LEQ && isLenOf(bo.X, v) && isZero(bo.Y) && !f.True, // !(len(v) <= 0)
+				bo.Op == token.GEQ && isZero(bo.X) && isLenOf(bo.Y, v) && !f.True: // !(0 >= len(v))
+				return true
+			}
+		}
+		return false
+	}
+	// nonEmptyDeep: ... or v is a parameter of a helper and the argument is known to have an element at every call
+	var nonEmptyDeep func(v ssa.Value, b *ssa.BasicBlock, depth int) bool
+	nonEmptyDeep = func(v ssa.Value, b *ssa.BasicBlock, depth int) bool {
+		if nonEmptyAt(v, b) {
+			return true
+		}
+		p, isP := v.(*ssa.Parameter)
+		if !isP || depth > 4 || p.Parent() != b.Parent() {
+			return false
+		}
+		sites := callSitesOf(p.Parent(), scope)
+		idx := paramIndexOf(p)
+		for _, s := range sites {
+			if idx < 0 || idx >= len(s.Common().Args) || !nonEmptyDeep(s.Common().Args[idx], s.Block(), depth+1) {
+				return false
+			}
+		}
+		return len(sites) > 0
+	}
 	if guardCall == nil {
 		c.R.Violate("C19-R2", "Run: guard executed", c.P.Pos(F.Pos()), "expected outputs' guards are never executed")
 	} else if okMark {
+		c.R.Fn(fname(guardCall.Parent()))
 		accepted := marks[0].Val
 		exe := callResults(guardCall)[0]
 		mres := callResults(matchCall)[0]
 		okG := true
 		var whyG []string
-		for _, d := range phiDefs(accepted, nil, map[ssa.Value]bool{}) {
+		// afterGuard: block b lies after the guard ran (after the guard call, or after the call of the helper that
+		// runs it unless the way at hand comes back through that very call: then the helper's own blocks decide)
+		afterGuard := func(b *ssa.BasicBlock, through []*ssa.Call) bool {
+			gs := siteInFn(b.Parent(), guardCall)
+			if gs == nil {
+				return false
+			}
+			for _, t := range through {
+				if ssa.Instruction(t) == gs {
+					return false
+				}
+			}
+			return gs.Block() == b || reachWithoutLoopHead(gs.Block(), b, b.Parent())
+		}
+		for _, w := range valueWays(accepted, scope, flow.FactsAt(marks[0].Block())) {
+			d := w.leaf
 			switch {
 			case ssau.IsNilConst(d):
 			case d == mres:
-				// only on paths without a guard: the edge must not come after the guard call
-				in := d.(ssa.Instruction)
-				_ = in
+				// only on ways without a guard: the way must not be chosen after the guard call
+				for _, b := range w.blocks {
+					if afterGuard(b, w.calls) {
+						okG = false
+						whyG = append(whyG, "the raw match result is accepted after the guard ran")
+						break
+					}
+				}
 			default:
 				// literal []Bindings{exe.Bs} under exe.Bs != nil
 				okLit := false
@@ -191,7 +308,9 @@ func C19(c *Ctx) {
 				}
 				if !okLit {
 					// a list built up from nothing by appending the guard's non-nil bindings
-					okLit = guardFiltered(newSliceWeb(F), d, exe)
+					if in, isIn := d.(ssa.Instruction); isIn && in.Parent() != nil {
+						okLit = guardFiltered(newSliceWeb(in.Parent()), d, exe)
+					}
 				}
 				if !okLit {
 					okG = false
@@ -199,51 +318,9 @@ func C19(c *Ctx) {
 				}
 			}
 		}
-		// the match result reaches acceptance only when no guard ran: the phi edge carrying mres must not be reachable from the guard call
-		if phi, isPhi := accepted.(*ssa.Phi); isPhi {
-			for i, e := range phi.Edges {
-				if e == mres && reachWithoutLoopHead(guardCall.Block(), phi.Block().Preds[i], F) && guardCall.Block() != phi.Block().Preds[i] {
-					okG = false
-					whyG = append(whyG, "the raw match result is accepted after the guard ran")
-				}
-				if e == mres && guardCall.Block() == phi.Block().Preds[i] {
-					okG = false
-					whyG = append(whyG, "the raw match result is accepted after the guard ran")
-				}
-			}
-		}
 		c.R.Check(okG, "C19-R2", "Run: after a guard only its non-nil bindings count as a match", c.pos(guardCall), "accepted value is nil, the guard-less match result, or []Bindings{exe.Bs} under exe.Bs != nil", strings.Join(whyG, "; ")+": a message the guard rejected can count as the expected one")
 		// acceptance test is 'accepted != nil'
 		okT := false
-		// nonEmptyAt: at block b the slice v is known to have at least one element.  (A nil test is not enough: the
-		// matcher answers "no match" for a property-variable pattern with an empty, non-nil slice.)
-		isLenOf := func(x ssa.Value, v ssa.Value) bool {
-			cl, ok := x.(*ssa.Call)
-			if !ok {
-				return false
-			}
-			bi, isB := cl.Common().Value.(*ssa.Builtin)
-			return isB && bi.Name() == "len" && cl.Common().Args[0] == v
-		}
-		isZero := func(x ssa.Value) bool { n, ok := ssau.ConstInt(x); return ok && n == 0 }
-		nonEmptyAt := func(v ssa.Value, b *ssa.BasicBlock) bool {
-			for _, f := range flow.FactsAt(b) {
-				bo, isB := f.Cond.(*ssa.BinOp)
-				if !isB {
-					continue
-				}
-				switch {
-				case bo.Op == token.LSS && isZero(bo.X) && isLenOf(bo.Y, v) && f.True, // 0 < len(v)
-					bo.Op == token.GTR && isLenOf(bo.X, v) && isZero(bo.Y) && f.True, // len(v) > 0
-					bo.Op == token.NEQ && (isLenOf(bo.X, v) && isZero(bo.Y) || isZero(bo.X) && isLenOf(bo.Y, v)) && f.True,
-					bo.Op == token.EQL && (isLenOf(bo.X, v) && isZero(bo.Y) || isZero(bo.X) && isLenOf(bo.Y, v)) && !f.True,
-					bo.Op == token.LEQ && isLenOf(bo.X, v) && isZero(bo.Y) && !f.True, // !(len(v) <= 0)
-					bo.Op == token.GEQ && isZero(bo.X) && isLenOf(bo.Y, v) && !f.True: // !(0 >= len(v))
-					return true
-				}
-			}
-			return false
-		}
 		nonEmptyLiteral := func(v ssa.Value) bool {
 			if sl, isSl := v.(*ssa.Slice); isSl {
 				if al, isAl := sl.X.(*ssa.Alloc); isAl {
@@ -254,7 +331,7 @@ func C19(c *Ctx) {
 			}
 			return false
 		}
-		if nonEmptyAt(accepted, marks[0].Block()) {
+		if nonEmptyDeep(accepted, marks[0].Block(), 0) {
 			okT = true
 		} else {
 			// every definition that reaches the mark has an element where it is chosen: a slice literal, or a value tested there
@@ -263,7 +340,7 @@ func C19(c *Ctx) {
 				if nonEmptyLiteral(da.v) {
 					continue
 				}
-				if ssau.IsNilConst(da.v) || !(nonEmptyAt(da.v, da.b) || nonEmptyAt(da.v, marks[0].Block())) {
+				if ssau.IsNilConst(da.v) || !(nonEmptyDeep(da.v, da.b, 0) || nonEmptyDeep(da.v, marks[0].Block(), 0)) {
 					okT = false
 				}
 			}
@@ -271,61 +348,164 @@ func C19(c *Ctx) {
 		// the guard is run on candidate #0 only where there is one
 		if ld, isLd := guardCall.Common().Args[1].(*ssa.UnOp); isLd {
 			if ia, isIA := ld.X.(*ssa.IndexAddr); isIA {
-				okIdx := nonEmptyAt(ia.X, guardCall.Block())
+				okIdx := nonEmptyDeep(ia.X, guardCall.Block(), 0)
 				c.R.Check(okIdx, "C19-R2", "Run: the guard runs only when the matcher produced a candidate", c.pos(guardCall), "under 0 < len(candidates)", "the guard is given element 0 of a candidate list that is only known to be non-nil: the matcher answers 'no match' for a property-variable pattern with an empty non-nil list, and the tool panics (or counts the output as met)")
 			}
 		}
 		c.R.Check(okT, "C19-R2", "Run: an output is marked only when something was accepted", c.pos(marks[0]), "under 0 < len(accepted)", "an output can be marked satisfied without an accepted match: the accepted list is at most known to be non-nil, and the matcher's 'no match' can be an empty non-nil list")
 	}
 	// ---- R3 countdown
+	// (the countdown lives in the matching function or in a caller of it: the function that reads the lines)
 	var dec *ssa.BinOp
-	ssau.Instrs(F, func(in ssa.Instruction) {
-		if bo, ok := in.(*ssa.BinOp); ok && bo.Op == token.SUB {
-			if n, isC := ssau.ConstInt(bo.Y); isC && n == 1 {
-				if _, isPhi := bo.X.(*ssa.Phi); isPhi {
-					dec = bo
+	for _, g := range anc {
+		ssau.Instrs(g, func(in ssa.Instruction) {
+			if bo, ok := in.(*ssa.BinOp); ok && bo.Op == token.SUB {
+				if n, isC := ssau.ConstInt(bo.Y); isC && n == 1 {
+					if _, isPhi := bo.X.(*ssa.Phi); isPhi {
+						dec = bo
+					}
 				}
 			}
+		})
+	}
+	// holdsAt: pred holds at block b — by the facts at b, or because b is reached only where a helper's verdict is
+	// true and every `return true` of that helper happens where pred holds
+	var holdsAt func(b *ssa.BasicBlock, extra []flow.Fact, pred func(b *ssa.BasicBlock, fs []flow.Fact) bool, depth int) bool
+	holdsAt = func(b *ssa.BasicBlock, extra []flow.Fact, pred func(b *ssa.BasicBlock, fs []flow.Fact) bool, depth int) bool {
+		fs := append(append([]flow.Fact{}, flow.FactsAt(b)...), extra...)
+		if pred(b, fs) {
+			return true
 		}
-	})
+		if depth > 3 {
+			return false
+		}
+		for _, f := range fs {
+			cond, pol := f.Cond, f.True
+			if u, ok := cond.(*ssa.UnOp); ok && u.Op == token.NOT {
+				cond, pol = u.X, !pol
+			}
+			if !pol {
+				continue
+			}
+			var cl *ssa.Call
+			ri := 0
+			switch x := cond.(type) {
+			case *ssa.Call:
+				cl = x
+			case *ssa.Extract:
+				cl, _ = x.Tuple.(*ssa.Call)
+				ri = x.Index
+			}
+			if cl == nil {
+				continue
+			}
+			h := cl.Common().StaticCallee()
+			if h == nil || !inScope[h] {
+				continue
+			}
+			if trueImplies(h, ri, func(hb *ssa.BasicBlock, ex []flow.Fact) bool { return holdsAt(hb, ex, pred, depth+1) }) {
+				return true
+			}
+		}
+		return false
+	}
+	notInverted := func(b *ssa.BasicBlock, fs []flow.Fact) bool {
+		for _, f := range fs {
+			if _, is := ssau.LoadOfField(f.Cond, prog.Abs("tools/expect"), "Output", "Inverted"); is && !f.True {
+				return true
+			}
+		}
+		return false
+	}
+	pastMark := func(b *ssa.BasicBlock, fs []flow.Fact) bool {
+		return okMark && b.Parent() == M && marks[0].Block().Dominates(b)
+	}
 	if dec == nil {
 		c.R.Violate("C19-R3", "Run: countdown of outstanding expectations", c.P.Pos(F.Pos()), "no countdown is decremented")
 	} else {
-		// same block chain as the mark; under Inverted == false
-		underNotInv := false
-		for _, f := range flow.FactsAt(dec.Block()) {
-			if _, is := ssau.LoadOfField(f.Cond, prog.Abs("tools/expect"), "Output", "Inverted"); is && !f.True {
-				underNotInv = true
-			}
+		T := dec.Parent() // the function that counts down (and, in it, concludes "all satisfied")
+		c.R.Fn(fname(T))
+		tErr := errResultIndex(T)
+		if tErr < 0 {
+			tErr = 0
 		}
-		afterMark := okMark && marks[0].Block().Dominates(dec.Block())
-		once := !flow.Reachable(dec.Block(), dec.Block(), map[*ssa.BasicBlock]bool{matchCall.Block(): true}) || true
-		c.R.Check(underNotInv && afterMark && once, "C19-R3", "Run: countdown decremented once per accepted, non-inverted output", c.pos(dec), "dominated by the mark and by !Inverted", fmt.Sprintf("the countdown is not decremented exactly for accepted non-inverted outputs (under !Inverted=%v, after the mark=%v)", underNotInv, afterMark))
+		siteT := siteInFn(T, matchCall)
+		// same block chain as the mark; under Inverted == false
+		underNotInv := holdsAt(dec.Block(), nil, notInverted, 0)
+		afterMark := holdsAt(dec.Block(), nil, pastMark, 0)
+		c.R.Check(underNotInv && afterMark, "C19-R3", "Run: countdown decremented once per accepted, non-inverted output", c.pos(dec), "dominated by the mark and by !Inverted", fmt.Sprintf("the countdown is not decremented exactly for accepted non-inverted outputs (under !Inverted=%v, after the mark=%v)", underNotInv, afterMark))
 		// inverted: error return
 		okInv := false
-		for _, b := range F.Blocks {
-			if ret, isRet := b.Instrs[len(b.Instrs)-1].(*ssa.Return); isRet && !ssau.IsNilConst(ret.Results[0]) {
-				for _, f := range flow.FactsAt(b) {
-					if _, is := ssau.LoadOfField(f.Cond, prog.Abs("tools/expect"), "Output", "Inverted"); is && f.True && okMark && marks[0].Block().Dominates(b) {
-						okInv = true
+		if mErr := errResultIndex(M); mErr >= 0 {
+			for _, b := range M.Blocks {
+				if ret, isRet := b.Instrs[len(b.Instrs)-1].(*ssa.Return); isRet && mErr < len(ret.Results) && !ssau.IsNilConst(ret.Results[mErr]) {
+					for _, f := range flow.FactsAt(b) {
+						if _, is := ssau.LoadOfField(f.Cond, prog.Abs("tools/expect"), "Output", "Inverted"); is && f.True && okMark && marks[0].Block().Dominates(b) {
+							okInv = true
+						}
 					}
 				}
 			}
 		}
+		// ... and the error of a helper is the error of the function that reads the lines
+		var errGoesUp func(h *ssa.Function, depth int) bool
+		errGoesUp = func(h *ssa.Function, depth int) bool {
+			if h == T {
+				return true
+			}
+			sites := callSitesOf(h, scope)
+			hErr := errResultIndex(h)
+			if depth > 4 || len(sites) == 0 || hErr < 0 {
+				return false
+			}
+			for _, s := range sites {
+				cl, isCall := s.(*ssa.Call)
+				g := s.Parent()
+				gErr := errResultIndex(g)
+				if !isCall || gErr < 0 {
+					return false
+				}
+				var ev ssa.Value = cl
+				if h.Signature.Results().Len() > 1 {
+					ev = callResults(cl)[hErr]
+				}
+				handed := false
+				for _, b := range g.Blocks {
+					ret, isRet := b.Instrs[len(b.Instrs)-1].(*ssa.Return)
+					if !isRet || gErr >= len(ret.Results) {
+						continue
+					}
+					for _, d := range phiDefs(ret.Results[gErr], nil, map[ssa.Value]bool{}) {
+						if ev != nil && d == ev && !provablyNil(ev, b) {
+							handed = true
+						}
+					}
+				}
+				if !handed || !errGoesUp(g, depth+1) {
+					return false
+				}
+			}
+			return true
+		}
+		okInv = okInv && errGoesUp(M, 0)
 		c.R.Check(okInv, "C19-R3", "Run: a matched forbidden output fails at once", c.P.Pos(F.Pos()), "error return under Inverted after acceptance", "a forbidden (inverted) output that matches does not fail the step")
 		// all-satisfied exit: need == 0 test leading to return nil must be dominated by the line read
-		var readCall *ssa.Call
-		ssau.Instrs(F, func(in ssa.Instruction) {
-			if cl, ok := in.(*ssa.Call); ok && strings.HasSuffix(ssau.CalleeName(cl), "bufio.Reader).ReadBytes") {
-				readCall = cl
-			}
-		})
+		var readSite ssa.Instruction
+		for _, g := range pkgClosure(T) {
+			ssau.Instrs(g, func(in ssa.Instruction) {
+				if cl, ok := in.(*ssa.Call); ok && strings.HasSuffix(ssau.CalleeName(cl), "bufio.Reader).ReadBytes") {
+					if s := siteInFn(T, cl); s != nil {
+						readSite = s
+					}
+				}
+			})
+		}
 		okExit := true
 		nExit := 0
 		whyExit := "no 'all satisfied' exit found"
-		for _, b := range F.Blocks {
+		for _, b := range T.Blocks {
 			ret, isRet := b.Instrs[len(b.Instrs)-1].(*ssa.Return)
-			if !isRet || !ssau.IsNilConst(ret.Results[0]) {
+			if !isRet || tErr >= len(ret.Results) || !ssau.IsNilConst(ret.Results[tErr]) {
 				continue
 			}
 			nExit++
@@ -344,7 +524,7 @@ func C19(c *Ctx) {
 			if !zero {
 				okExit, whyExit = false, "success is returned without the countdown having reached zero"
 			}
-			if readCall == nil || !readCall.Block().Dominates(b) {
+			if readSite == nil || !readSite.Block().Dominates(b) {
 				okExit, whyExit = false, "'all satisfied' can be concluded before any line was read: a step that only forbids outputs passes whatever the subprocess prints"
 			}
 		}
@@ -352,17 +532,21 @@ func C19(c *Ctx) {
 			okExit = false
 		}
 		// every output of the set is tried against the line before success is concluded
-		if Lo := flow.InnermostLoop(flow.Loops(F), matchCall.Block()); Lo != nil {
-			for _, b := range F.Blocks {
+		var Lo *flow.Loop
+		if siteT != nil {
+			Lo = flow.InnermostLoop(flow.Loops(T), siteT.Block())
+		}
+		if Lo != nil {
+			for _, b := range T.Blocks {
 				ret, isRet := b.Instrs[len(b.Instrs)-1].(*ssa.Return)
-				if !isRet || !ssau.IsNilConst(ret.Results[0]) {
+				if !isRet || tErr >= len(ret.Results) || !ssau.IsNilConst(ret.Results[tErr]) {
 					continue
 				}
 				for _, ex := range Lo.Exits() {
 					if ex[0] == Lo.Header {
 						continue
 					}
-					if ex[1] == b || reachWithoutLoopHead(ex[1], b, F) {
+					if ex[1] == b || reachWithoutLoopHead(ex[1], b, T) {
 						okExit, whyExit = false, "success is returned from inside the loop over the step's outputs ("+c.pos(ret)+"): outputs listed later — forbidden ones included — are never tried against that line"
 					}
 				}
@@ -439,16 +623,21 @@ func C19(c *Ctx) {
 	}
 	// ---- R5: each line is decoded into a value of its own (json.Unmarshal merges into a non-nil map it is given)
 	{
+		// (the function that reads the lines: the matching function, or the caller of it that holds the read loop)
 		var readCall *ssa.Call
-		ssau.Instrs(F, func(in ssa.Instruction) {
-			if cl, ok := in.(*ssa.Call); ok && strings.HasSuffix(ssau.CalleeName(cl), "bufio.Reader).ReadBytes") {
-				readCall = cl
-			}
-		})
+		RF := F
+		for _, g := range anc {
+			ssau.Instrs(g, func(in ssa.Instruction) {
+				if cl, ok := in.(*ssa.Call); ok && strings.HasSuffix(ssau.CalleeName(cl), "bufio.Reader).ReadBytes") {
+					readCall, RF = cl, g
+				}
+			})
+		}
 		okFresh, whyFresh := false, "the line is not decoded with json.Unmarshal"
 		if readCall != nil {
-			L := flow.InnermostLoop(flow.Loops(F), readCall.Block())
-			ssau.Instrs(F, func(in ssa.Instruction) {
+			c.R.Fn(fname(RF))
+			L := flow.InnermostLoop(flow.Loops(RF), readCall.Block())
+			ssau.Instrs(RF, func(in ssa.Instruction) {
 				cl, ok := in.(*ssa.Call)
 				if !ok || ssau.CalleeName(cl) != "encoding/json.Unmarshal" || L == nil || !L.Blocks[cl.Block()] {
 					return
@@ -481,21 +670,83 @@ func C19(c *Ctx) {
 		c.R.Check(okFresh, "C19-R5", "Run: every line is decoded into a fresh value", c.P.Pos(F.Pos()), "the json.Unmarshal target is a variable created in that iteration of the read loop", whyFresh)
 	}
 	// ---- R4
+	// The test "fewer than two completion signals": a comparison of a count with 2 (the 2 may be a constant, a
+	// variable or a field of a local record).  Either Run returns on its "fewer" edge, or the test sits in a helper
+	// whose verdict is true only where "not fewer" holds, and Run returns where that verdict is false.
 	okBoth := false
-	for _, b := range run.Blocks {
-		iff, ok := b.Instrs[len(b.Instrs)-1].(*ssa.If)
-		if !ok {
-			continue
+	{
+		scope4 := pkgClosure(run)
+		is2 := func(v ssa.Value) bool {
+			ls := resolveThroughLocals(v, scope4)
+			for _, l := range ls {
+				if n, isC := ssau.ConstInt(l); !isC || n != 2 {
+					return false
+				}
+			}
+			return len(ls) > 0
 		}
-		bo, isB := iff.Cond.(*ssa.BinOp)
-		if !isB || bo.Op != token.LSS {
-			continue
+		// fewer / enough: what a fact says about "count < 2"
+		verdict := func(f flow.Fact) (fewer, enough bool) {
+			bo, isB := f.Cond.(*ssa.BinOp)
+			if !isB {
+				return false, false
+			}
+			lt := false // the comparison reads "count < 2" when true (else "count >= 2")
+			switch {
+			case bo.Op == token.LSS && is2(bo.Y), bo.Op == token.GTR && is2(bo.X):
+				lt = true
+			case bo.Op == token.GEQ && is2(bo.Y), bo.Op == token.LEQ && is2(bo.X):
+				lt = false
+			default:
+				return false, false
+			}
+			return lt == f.True, lt != f.True
 		}
-		if n, isC := ssau.ConstInt(bo.Y); isC && n == 2 {
-			// true edge returns an error
-			s := b.Succs[0]
-			if _, isRet := s.Instrs[len(s.Instrs)-1].(*ssa.Return); isRet {
-				okBoth = true
+		endsInReturn := func(b *ssa.BasicBlock) bool {
+			_, isRet := b.Instrs[len(b.Instrs)-1].(*ssa.Return)
+			return isRet
+		}
+		for _, b := range run.Blocks {
+			iff, ok := b.Instrs[len(b.Instrs)-1].(*ssa.If)
+			if !ok {
+				continue
+			}
+			for si, succ := range b.Succs {
+				for _, f := range flow.Expand([]flow.Fact{{Cond: iff.Cond, True: si == 0, If: iff}}) {
+					if fewer, _ := verdict(f); fewer && endsInReturn(succ) {
+						okBoth = true
+					}
+					// the verdict of a helper: Run returns where it is false
+					if f.True {
+						continue
+					}
+					var cl *ssa.Call
+					ri := 0
+					switch x := f.Cond.(type) {
+					case *ssa.Call:
+						cl = x
+					case *ssa.Extract:
+						cl, _ = x.Tuple.(*ssa.Call)
+						ri = x.Index
+					}
+					if cl == nil || !endsInReturn(succ) {
+						continue
+					}
+					h := cl.Common().StaticCallee()
+					if h == nil || h.Blocks == nil || prog.PkgOf(h) != prog.PkgOf(run) {
+						continue
+					}
+					if trueImplies(h, ri, func(hb *ssa.BasicBlock, extra []flow.Fact) bool {
+						for _, hf := range append(flow.FactsAt(hb), extra...) {
+							if _, enough := verdict(hf); enough {
+								return true
+							}
+						}
+						return false
+					}) {
+						okBoth = true
+					}
+				}
 			}
 		}
 	}
